@@ -185,17 +185,19 @@ theorem unknown_format_fails (writers : List String) (fmt : String) (name : List
 /-! ## Exit status and step order -/
 
 /-- A failure never exits with status 0 (a `CommandException` built with an explicit `code=0`
-is the only way to say "not a failure") and always says something. -/
+is the only way to say "not a failure"), and every failure other than the user's own
+keyboard interrupt says something. -/
 theorem exit_status_nonzero (f : Failure) (h : f ≠ .command 0) :
-    exitStatus f ≠ 0 ∧ failureMessage f = true := by
+    exitStatus f ≠ 0 ∧ (f ≠ .interrupt → failureMessage f = true) := by
   cases f with
   | command code =>
-    refine ⟨?_, rfl⟩
+    refine ⟨?_, fun _ => rfl⟩
     intro h0
     apply h
     simp only [exitStatus] at h0
     rw [h0]
-  | _ => exact ⟨by decide, rfl⟩
+  | interrupt => exact ⟨by decide, fun h => absurd rfl h⟩
+  | _ => exact ⟨by decide, fun _ => rfl⟩
 
 /-- The three failures named by the property have the documented statuses:
 points outside the model and unknown / unguessable output format → 1 (`CommandException`),
@@ -252,13 +254,14 @@ theorem handlers_write_last :
 /-- **exit_status.** For `clip`, `extract-points` and `export-geometry`: if the first step
 that fails is a validation step (arguments, input files, geometry, points, format …), the
 command ends with the failure's exit status — non-zero for every real failure — and a
-message, and **no write step has been started**; if nothing fails it ends with status 0
+message (every failure but a keyboard interrupt), and **no write step has been started**; if nothing fails it ends with status 0
 after exactly one write. -/
 theorem exit_status :
     ∀ h : String × List Step, h ∈ handlers → ∀ (fails : Nat → Option Failure),
       (∀ (k : Nat) (f : Failure) (st : Step), h.2[k]? = some st → st.kind = .validate → fails k = some f →
           (∀ j, j < k → fails j = none) →
-          run h.2 fails = ⟨exitStatus f, true, 0⟩ ∧ (f ≠ .command 0 → exitStatus f ≠ 0))
+          run h.2 fails = ⟨exitStatus f, failureMessage f, 0⟩
+          ∧ (f ≠ .command 0 → exitStatus f ≠ 0) ∧ (f ≠ .interrupt → failureMessage f = true))
       ∧ ((∀ j, fails j = none) → run h.2 fails = ⟨0, false, 1⟩) := by
   intro h hh fails
   refine ⟨?_, ?_⟩
@@ -267,11 +270,11 @@ theorem exit_status :
       rcases Nat.lt_or_ge k h.2.length with h1 | h1
       · exact h1
       · rw [List.getElem?_eq_none h1] at hk; simp at hk
-    refine ⟨?_, fun hne => (exit_status_nonzero f hne).1⟩
+    refine ⟨?_, fun hne => (exit_status_nonzero f hne).1, fun hne => by cases f <;> simp_all [failureMessage]⟩
     have := runFrom_fail fails h.2 0 0 k f hlt (by simpa using hf)
       (fun j hj => by simpa using hnone j hj)
       (fun j st' hj hs' => handlers_write_last h hh k st hk hv j st' hj hs')
-    simpa [run, failureMessage] using this
+    simpa [run] using this
   · intro hnone
     have := runFrom_ok fails h.2 0 0 hnone
     have hcount : ∀ h : String × List Step, h ∈ handlers →
